@@ -478,6 +478,18 @@ def _coap_batch(loop, p):
     conn.enc_ctx = EncryptionContext(
         ChaCha20Poly1305(a2c), ChaCha20Poly1305(c2a), ChaCha20Poly1305(det_bytes(seed, "c17-coap-ev")), "coap://[::1]:5683/", acc
     )
+    prior = p.get("prior", 0)
+    if prior:
+        # the session has been up for a while: `prior` earlier exchanges (single reads, answered honestly) before the batch under test -
+        # whatever counts along with the session (message counters, transaction ids) is far from its initial value, or about to wrap
+        real_script, acc.script = acc.script, (lambda reqs: [(coappdu.TYPE_RESPONSE, r[2], 0, tlv8.encode([(1, b"\x01")])) for r in reqs])
+        for _ in range(prior):
+            try:
+                loop.run_coro(conn.read_characteristics([ids[0]]))
+            except Exception as e:  # noqa: BLE001
+                return [(f"coap:read:raises:{type(e).__name__}:after-{len(acc.requests)}-exchanges-on-the-session", {**p, "err": str(e)[:200]})]
+        acc.script = real_script
+        del acc.requests[:]
     if op == "read":
         coro = conn.read_characteristics(ids)
     elif op == "write":
@@ -1013,8 +1025,17 @@ def run(ctx):
                 vec[bad_at] = "err:4"
             for op in OPS:
                 bat.append({"vec": vec, "lens": "A", "wt": "next", "wc": 0, "seed": seed, "op": op})
+    # long-lived sessions: the same batches after 250..600 earlier exchanges (counters about to pass 255 / 256 / 511 / 512 inside the batch)
+    for prior in ([250, 253, 255, 256, 510] if quick else [127, 128, 250, 251, 252, 253, 254, 255, 256, 257, 300, 509, 510, 511, 512, 600]):
+        for n in (1, 2, 6) if quick else (1, 2, 3, 6, 16, 17):
+            for op in ("read", "write") if quick else OPS:
+                vec = ["ok:n"] * n
+                bat.append({"vec": vec, "lens": "A", "wt": "next", "wc": 0, "seed": seed, "op": op, "prior": prior})
+                if n > 1:
+                    bat.append({"vec": ["ok:n"] * (n - 1) + ["err:4"], "lens": "A", "wt": "next", "wc": 0, "seed": seed, "op": op, "prior": prior})
     work += _chunks("coap_decode", dec, 1500)
-    work += _chunks("coap_batch", bat, 500)
+    work += _chunks("coap_batch", [b for b in bat if b.get("prior")], 12)
+    work += _chunks("coap_batch", [b for b in bat if not b.get("prior")], 500)
     ctx.bounds["coap"] = dict(
         six_symbol_vectors=f"every vector over {SYM6} for batches 1..{nmax6} (err:r / errctl:r rotate through the six defined statuses by position)",
         full_alphabet=f"every vector over {SYM14} for batches 1..3 x wrong-tid/wrong-control variants {variants}" + (" (n=3: first variant only)" if quick else ""),
